@@ -27,8 +27,18 @@ import (
 )
 
 type c25bReplica struct {
-	Weight int    `json:"weight"`
-	DC     string `json:"dc"`
+	Weight   int    `json:"weight"`
+	DC       string `json:"dc"`
+	NoWeight bool   `json:"no_weight,omitempty"` // the address carries no '@weight': the weight is the default 1
+}
+
+// want is the weight the configuration gives this replica (the oracle never reads the
+// weight or datacenter the code under test parsed).
+func (r c25bReplica) want() int {
+	if r.NoWeight {
+		return 1
+	}
+	return r.Weight
 }
 
 type c25bCase struct {
@@ -57,7 +67,11 @@ func c25bConfig(c c25bCase, portBase int) *models.Namespace {
 		var out []string
 		for _, r := range rs {
 			port++
-			out = append(out, fmt.Sprintf("127.0.0.1:%d@%d#%s", port, r.Weight, r.DC))
+			if r.NoWeight {
+				out = append(out, fmt.Sprintf("127.0.0.1:%d#%s", port, r.DC))
+			} else {
+				out = append(out, fmt.Sprintf("127.0.0.1:%d@%d#%s", port, r.Weight, r.DC))
+			}
 		}
 		return out
 	}
@@ -78,9 +92,18 @@ type c25bFail struct {
 }
 
 // c25bJudgeGroup makes selections from one replica group of one slice with one policy.
-func c25bJudgeGroup(sl *backend.Slice, group *backend.DBInfo, userType int, policy int, idc string, picksOut *int64) *c25bFail {
-	if group == nil || len(group.Nodes) == 0 {
+// usePolicy is what is handed to GetConn, policy is what the configuration asks for (they
+// differ only when the namespace mapped the configured priority wrongly).
+func c25bJudgeGroup(sl *backend.Slice, group *backend.DBInfo, cfg []c25bReplica, userType int, usePolicy int, policy int, idc string, picksOut *int64) *c25bFail {
+	if len(cfg) == 0 {
 		return nil
+	}
+	if group == nil || len(group.Nodes) != len(cfg) {
+		n := 0
+		if group != nil {
+			n = len(group.Nodes)
+		}
+		return &c25bFail{Clause: "group-size-mismatch", Detail: fmt.Sprintf("%d replicas configured, the group holds %d", len(cfg), n)}
 	}
 	type nd struct {
 		w     int
@@ -91,8 +114,8 @@ func c25bJudgeGroup(sl *backend.Slice, group *backend.DBInfo, userType int, poli
 	localServes := false
 	for i, n := range group.Nodes {
 		byAddr[n.Address] = i
-		nodes[i] = nd{w: n.Weight, local: n.Datacenter == idc}
-		if n.Weight > 0 && nodes[i].local {
+		nodes[i] = nd{w: cfg[i].want(), local: cfg[i].DC == idc}
+		if nodes[i].w > 0 && nodes[i].local {
 			localServes = true
 		}
 	}
@@ -128,7 +151,7 @@ func c25bJudgeGroup(sl *backend.Slice, group *backend.DBInfo, userType int, poli
 	d := 3*total + 6
 	picks := make([]int, 0, d)
 	for j := 0; j < d; j++ {
-		pc, err := sl.GetConn(reqCtx, userType, policy)
+		pc, err := sl.GetConn(reqCtx, userType, usePolicy)
 		*picksOut++
 		idx := -1
 		if err == nil && pc != nil {
@@ -149,7 +172,7 @@ func c25bJudgeGroup(sl *backend.Slice, group *backend.DBInfo, userType int, poli
 				return &c25bFail{Clause: "no-pick-while-eligible-up", Detail: fmt.Sprintf("selection %d %s although an eligible replica is up", j, what)}
 			}
 		case nodes[idx].w <= 0:
-			return &c25bFail{Clause: "zero-weight-picked", Detail: fmt.Sprintf("selection %d returned %s (weight 0)", j, group.Nodes[idx].Address)}
+			return &c25bFail{Clause: "zero-weight-picked", Detail: fmt.Sprintf("selection %d returned %s (configured weight 0)", j, group.Nodes[idx].Address)}
 		case policy == backend.LocalSlaveReadForce && !nodes[idx].local:
 			return &c25bFail{Clause: "force-remote", Detail: fmt.Sprintf("selection %d returned %s in datacenter %q, the proxy is in %q", j, group.Nodes[idx].Address, group.Nodes[idx].Datacenter, idc)}
 		case policy == backend.LocalSlaveReadPrefer && !nodes[idx].local && localServes:
@@ -166,7 +189,7 @@ func c25bJudgeGroup(sl *backend.Slice, group *backend.DBInfo, userType int, poli
 			}
 			for i := range cnt {
 				if cnt[i] != exp[i] {
-					return &c25bFail{Clause: "window", Detail: fmt.Sprintf("window of %d selections starting at %d = %v, expected per-node counts %v", total, pos, picks[pos:pos+total], exp)}
+					return &c25bFail{Clause: "window", Detail: fmt.Sprintf("window of %d selections starting at %d = %v, expected per-node counts %v from the configured weights %+v", total, pos, picks[pos:pos+total], exp, cfg)}
 				}
 			}
 		}
@@ -174,26 +197,45 @@ func c25bJudgeGroup(sl *backend.Slice, group *backend.DBInfo, userType int, poli
 	return nil
 }
 
-func c25bJudgeNamespace(ns *Namespace, idc string, picks *int64) *c25bFail {
-	names := make([]string, 0, len(ns.slices))
-	for name := range ns.slices {
-		names = append(names, name)
+func c25bWantPolicy(priority int) int {
+	switch priority {
+	case 1:
+		return backend.LocalSlaveReadPrefer
+	case 2:
+		return backend.LocalSlaveReadForce
 	}
-	for i := 1; i < len(names); i++ {
-		for j := i; j > 0 && names[j] < names[j-1]; j-- {
-			names[j], names[j-1] = names[j-1], names[j]
-		}
-	}
-	for _, name := range names {
+	return backend.LocalSlaveReadClosed
+}
+
+func c25bJudgeNamespace(ns *Namespace, c c25bCase, idc string, picks *int64) *c25bFail {
+	for i := range c.Slaves {
+		name := fmt.Sprintf("slice-%d", i)
 		sl := ns.slices[name]
-		for _, policy := range []int{backend.LocalSlaveReadClosed, backend.LocalSlaveReadPrefer, backend.LocalSlaveReadForce} {
-			if f := c25bJudgeGroup(sl, sl.Slave, 0, policy, idc, picks); f != nil {
-				f.Clause = fmt.Sprintf("%s/normal/policy%d", f.Clause, policy)
+		if sl == nil {
+			return &c25bFail{Clause: "slice-missing", Detail: name}
+		}
+		var stats []c25bReplica
+		if i < len(c.Stats) {
+			stats = c.Stats[i]
+		}
+		type pass struct {
+			use, want int
+			tag       string
+		}
+		// the way a session selects (executor.go): the namespace's own mapping of the configured
+		// local_slave_read_priority; then every policy handed over directly
+		passes := []pass{{ns.localSlaveReadPriority, c25bWantPolicy(c.Priority), "configured-priority"}}
+		for _, p := range []int{backend.LocalSlaveReadClosed, backend.LocalSlaveReadPrefer, backend.LocalSlaveReadForce} {
+			passes = append(passes, pass{p, p, "direct"})
+		}
+		for _, ps := range passes {
+			if f := c25bJudgeGroup(sl, sl.Slave, c.Slaves[i], 0, ps.use, ps.want, idc, picks); f != nil {
+				f.Clause = fmt.Sprintf("%s/normal/policy%d/%s", f.Clause, ps.want, ps.tag)
 				f.Detail = "slice " + name + " group Slave: " + f.Detail
 				return f
 			}
-			if f := c25bJudgeGroup(sl, sl.StatisticSlave, models.StatisticUser, policy, idc, picks); f != nil {
-				f.Clause = fmt.Sprintf("%s/statistic/policy%d", f.Clause, policy)
+			if f := c25bJudgeGroup(sl, sl.StatisticSlave, stats, models.StatisticUser, ps.use, ps.want, idc, picks); f != nil {
+				f.Clause = fmt.Sprintf("%s/statistic/policy%d/%s", f.Clause, ps.want, ps.tag)
 				f.Detail = "slice " + name + " group StatisticSlave: " + f.Detail
 				return f
 			}
@@ -242,6 +284,9 @@ func TestVerif_C25b(t *testing.T) {
 					if r.Chance(2, 5) {
 						rp.DC = other
 					}
+					if r.Chance(1, 3) {
+						rp.NoWeight = true // "host:port#dc": default weight 1, whatever the neighbours say
+					}
 					out = append(out, rp)
 				}
 				return out
@@ -287,7 +332,7 @@ func TestVerif_C25b(t *testing.T) {
 			return
 		}
 		rec.Eval(1)
-		if f := c25bJudgeNamespace(ns, idc, &picks); f != nil {
+		if f := c25bJudgeNamespace(ns, c, idc, &picks); f != nil {
 			report(c, stage, f)
 		}
 		if stage != "initial" {
@@ -295,10 +340,10 @@ func TestVerif_C25b(t *testing.T) {
 			for _, g := range append(append([][]c25bReplica{}, c.Slaves...), c.Stats...) {
 				l, rm := false, false
 				for _, rp := range g {
-					if rp.Weight > 0 && rp.DC == idc {
+					if rp.want() > 0 && rp.DC == idc {
 						l = true
 					}
-					if rp.Weight > 0 && rp.DC != idc {
+					if rp.want() > 0 && rp.DC != idc {
 						rm = true
 					}
 				}
@@ -363,6 +408,16 @@ func TestVerif_C25b(t *testing.T) {
 		if i < 3 {
 			rec.Sample(c)
 		}
+	}
+	// directed: explicit weights followed by addresses without '@weight', every priority
+	for pr := 0; pr < 3; pr++ {
+		c := c25bCase{Name: "c25b_0", Priority: pr, Reloads: 1,
+			Slaves: [][]c25bReplica{{{Weight: 3, DC: idc}, {NoWeight: true, DC: idc}, {Weight: 0, DC: idc}, {NoWeight: true, DC: other}, {Weight: 5, DC: other}, {NoWeight: true, DC: idc}}},
+			Stats:  [][]c25bReplica{{{Weight: 4, DC: other}, {NoWeight: true, DC: idc}}}}
+		if !reload(c, 52000+pr*100) {
+			return
+		}
+		judge(c, "reload #1")
 	}
 	rec.Count("reloads", reloads)
 	rec.Count("selections", picks)
